@@ -108,11 +108,13 @@ def outcome_of(fn):
 
 
 def run_tape(tape):
+    import contextlib
     with seams.deterministic(tape):
-        return _run_tape(tape)
+        with contextlib.ExitStack() as stack:
+            return _run_tape(tape, stack)
 
 
-def _run_tape(tape):
+def _run_tape(tape, stack):
     run = Run(PROP)
     # ---- configuration draws, fixed order (systematic placement overrides them through the tape prefix)
     nfaults = tape.draw(3)
@@ -128,6 +130,10 @@ def _run_tape(tape):
     save_raises = tape.draw(6) == 5
     extractor = tape.choice([None, 'ok', 'ok', 'raises', 'junk_none', 'junk_int', 'junk_str', 'junk_list'])
     rseed = tape.draw(1000)
+    if tape.draw(5) == 4:
+        # the service runs with the library's DEBUG logging on: logging is not behaviour
+        stack.enter_context(seams.debug_logging())
+        run.probe('library_logging_at_debug_level')
 
     spec = R.gen_service(tape, run, max_steps=10, threads=threaded)
     R.fill_outcomes(tape, run, spec)
